@@ -87,6 +87,8 @@ def check_roundtrip(case):
         labels.append('empty-chunk-after-eos')
     if len(original) > 131072:
         labels.append('>128K')
+    if len(comp) > 524288:
+        labels.append('compressed>512K')
     return {'nontrivial': len(chunks) >= 2 and len([p for p in parts]) >= 3, 'labels': labels}
 
 
@@ -170,7 +172,11 @@ def chunk_specs(draw, big):
 def rt_case(draw):
     big = draw(st.integers(0, 5)) == 0
     cuts = draw(st.lists(st.one_of(st.integers(0, 1000000), st.just(1000000), st.just(0)), max_size=8))
-    return {'codec': draw(st.sampled_from(['gzip', 'zstd'])), 'chunks': draw(chunk_specs(big)), 'cuts': sorted(cuts)}
+    chunks = draw(chunk_specs(big))
+    if big and draw(st.integers(0, 3)) == 0:
+        # streams whose COMPRESSED size passes half a megabyte / a megabyte (incompressible input of that size)
+        chunks = chunks[:2] + [[draw(st.sampled_from([300000, 524288, 600000])), 'rand', draw(st.integers(0, 999))] for _ in range(draw(st.integers(2, 3)))]
+    return {'codec': draw(st.sampled_from(['gzip', 'zstd'])), 'chunks': chunks, 'cuts': sorted(cuts)}
 
 
 @st.composite
